@@ -167,6 +167,24 @@ func c07QualifierPool() []c07Def {
 	}
 }
 
+// c07PartialArgsPool: a generic function with two type parameters referenced with a PARTIAL explicit type-argument
+// list (sp.Map<int> f xs: T is given, U is left to inference) in several unrelated definitions.  The variable that
+// stands for the unspecified parameter belongs to the definition that wrote the reference; type variables are numbered
+// from _T0 again in every definition, so an instantiation that is built once per (function, explicit arguments) and
+// kept for the run carries one definition's variable into the next (after seed C07j).
+func c07PartialArgsPool() []c07Def {
+	return []c07Def{
+		/*0*/ {name: "PIsp", src: "package_info sp =\n  let Map<T, U>: (T->U)->[]T->[]U\n  let Mk2<A, B>: A->B->(A*B)\n", owns: func(string) bool { return false }, declOnly: true, noOutput: true},
+		/*1*/ {name: "toLabelp", src: "let toLabelp (i:int) =\n  \"s\"\n", owns: exact("toLabelp")},
+		/*2*/ {name: "isPosp", src: "let isPosp (i:int) =\n  i > 0\n", owns: exact("isPosp")},
+		/*3*/ {name: "labelsp", src: "let labelsp (xs: []int) =\n  sp.Map<int> toLabelp xs\n", deps: []int{0, 1}, owns: exact("labelsp")},
+		/*4*/ {name: "mapWithp", src: "let mapWithp f other (ys: []int) =\n  (sp.Map<int> f ys, other)\n", deps: []int{0}, owns: exact("mapWithp")},
+		/*5*/ {name: "marksp", src: "let marksp (xs: []int) =\n  sp.Map<int> (fun k -> isPosp k) xs\n", deps: []int{0, 2}, owns: exact("marksp")},
+		/*6*/ {name: "mk2p", src: "let mk2p a b c =\n  (sp.Mk2<int> 1 a, b, c)\n", deps: []int{0}, owns: exact("mk2p")},
+		/*7*/ {name: "mk2q", src: "let mk2q (s:string) =\n  sp.Mk2<int> 1 s\n", deps: []int{0}, owns: exact("mk2q")},
+	}
+}
+
 func c07Pool(thorough bool) []c07Def {
 	pool := []c07Def{
 		/*0*/ {name: "R", src: "type R = {A: int; B: string}\n", owns: exact("R"), declOnly: true},
@@ -451,6 +469,13 @@ func checkC07(c *core.Ctx) {
 	c07ExplorePool(c, sc, fc, ql[:5], [][2]int{{5, maxFiles}})
 	qlb := append(append([]c07Def{}, ql[:3]...), ql[5:7]...)
 	c07ExplorePool(c, sc, fc, qlb, [][2]int{{5, maxFiles}})
+	pa := c07PartialArgsPool()
+	c.Set("partial_type_arguments_pool_size", len(pa))
+	// the Map half (declaration, three users, their helpers) and the Mk2 half
+	c07ExplorePool(c, sc, fc, pa[:6], [][2]int{{5, maxFiles}})
+	pab := []c07Def{pa[0], pa[6], pa[7], pa[3], pa[1]}
+	pab[1].deps, pab[2].deps, pab[3].deps = []int{0}, []int{0}, []int{0, 4}
+	c07ExplorePool(c, sc, fc, pab, [][2]int{{5, maxFiles}})
 	inst := c07InstantiationPool()
 	c.Set("instantiation_pool_size", len(inst))
 	c07ExplorePool(c, sc, fc, inst, [][2]int{{5, maxFiles}})
